@@ -168,7 +168,8 @@ detail::temporary_allocator_dtor_t::temporary_allocator_dtor_t() noexcept
 
 detail::temporary_allocator_dtor_t::~temporary_allocator_dtor_t() noexcept
 {
-    if (--nifty_counter == 0u && temp_stack)
+    // also when this thread never had a stack of its own: other threads may have created some
+    if (--nifty_counter == 0u)
         temporary_stack_list_obj.destroy();
 }
 
